@@ -1044,6 +1044,9 @@ fn server_props(r: &mut Rd, allowed: &[u8], server_publish: bool) -> Result<Vec<
             // block is a field running past its container. (Other packets' property blocks are
             // decoded lazily, when the application iterates them.)
             Err(e) if e.contains("past packet") && allowed == P_CONNACK => return Err(Class::MustReject("property value runs past the property block")),
+            // ... likewise a property identifier written as a non-canonical or oversized
+            // variable-length integer
+            Err(e) if (e.contains("non-canonical varint") || e.contains("varint longer than 4 bytes")) && allowed == P_CONNACK => return Err(Class::MustReject("non-canonical or oversized variable-length integer in a CONNACK property")),
             Err(_) => return Err(Class::DontCare("malformed content inside property block")),
         }
     }
@@ -1098,7 +1101,7 @@ pub fn classify_server(frame: &[u8], rx_cap: usize) -> Class {
             let props = match server_props(&mut r, P_CONNACK, false) {
                 Ok(p) => p,
                 // a refusing CONNACK may be reported by its reason code before its properties are read
-                Err(Class::MustReject("property value runs past the property block")) if reason >= 0x80 => return Class::DontCare("malformed properties in a refusing CONNACK"),
+                Err(Class::MustReject("property value runs past the property block" | "non-canonical or oversized variable-length integer in a CONNACK property")) if reason >= 0x80 => return Class::DontCare("malformed properties in a refusing CONNACK"),
                 Err(c) => return c,
             };
             if r.left() != 0 {
